@@ -30,6 +30,7 @@ inductive Op where
   | deepcopyObj                       -- copy.deepcopy
   | pickleObj                         -- pickle.dumps (may raise; must not touch the file)
   | loadResults                       -- reading back through Samples / load_results
+  | parallelStart (overwrite : Bool)  -- `ParallelSampleSMP.sample(..., overwrite_existing_files=…)` with this path among its file names
 deriving Repr, DecidableEq
 
 inductive Result where
@@ -42,6 +43,7 @@ deriving Repr, DecidableEq
 def Op.consents : Op → Bool
   | .sample _ ow => ow
   | .openWrite ow => ow
+  | .parallelStart ow => ow
   | _ => false
 
 def exists_ (w : World) (npy : Bool) : Bool := w.file.isSome || (npy && w.sidecar.isSome)
@@ -64,6 +66,9 @@ def step (npy : Bool) (w : World) : Op → World × Result
   | .deepcopyObj => (w, .ok)
   | .pickleObj => (w, .ok)
   | .loadResults => (w, .ok)
+  | .parallelStart ow =>
+      -- the controller refuses to start at all without consent (its chains always overwrite); the name is resolved as Samples resolves it
+      if !ow then (w, .rejected) else (rewrite w npy true, .ok)
 
 def run (npy : Bool) (w : World) (ops : List Op) : World := ops.foldl (fun w o => (step npy w o).1) w
 
